@@ -4,6 +4,7 @@ import (
 	"fmt"
 	"io"
 	"runtime"
+	"strings"
 	"sync"
 	"sync/atomic"
 	"time"
@@ -78,14 +79,34 @@ func c07Run(c *mon.Ctx, r *mon.Rand) {
 	inj := mon.NewDelayInjector(r.U64(), prof, true)
 	inj.Install()
 	defer inj.Uninstall()
+	// half of the runs use a sanitizer that rewrites the tag values the harness
+	// passes, so that a Tagged scope is registered under several raw spellings
+	// besides its sanitized key
+	withSan := r.Bool()
+	if withSan {
+		so := tally.SanitizeOptions{
+			NameCharacters:       tally.ValidCharacters{Ranges: tally.AlphanumericRange, Characters: tally.UnderscoreDashDotCharacters},
+			KeyCharacters:        tally.ValidCharacters{Ranges: tally.AlphanumericRange, Characters: tally.UnderscoreCharacters},
+			ValueCharacters:      tally.ValidCharacters{Ranges: tally.AlphanumericRange, Characters: tally.UnderscoreCharacters},
+			ReplacementCharacter: '_',
+		}
+		opts.SanitizeOptions = &so
+	}
 	root, closer := tally.VerifNewRootScope(opts, interval, shards)
-	desc := map[string]interface{}{"cached": cached, "shards": shards, "interval_us": interval.Microseconds(), "workers": nWorkers, "passers": nPassers,
+	desc := map[string]interface{}{"sanitizer": withSan, "cached": cached, "shards": shards, "interval_us": interval.Microseconds(), "workers": nWorkers, "passers": nPassers,
 		"epochs": epochs, "ops_per_epoch": opsPerEpoch, "delay_strength": prof.Strength}
 	c.LogCase(fmt.Sprint(desc))
 
+	var spell uint64
 	obtain := func(id *c07Ident) tally.Scope {
 		if id.tagged {
-			return root.Tagged(map[string]string{"id": id.name})
+			v := id.name
+			if withSan {
+				// raw spellings that all sanitize to id.name ("w0_k1")
+				n := atomic.AddUint64(&spell, 1)
+				v = strings.Replace(id.name, "_", []string{"_", ".", "-", ":"}[n%4], 1)
+			}
+			return root.Tagged(map[string]string{"id": v})
 		}
 		return root.SubScope(id.name)
 	}
@@ -94,7 +115,7 @@ func c07Run(c *mon.Ctx, r *mon.Rand) {
 		n := r.Range(1, 3)
 		var mine []*c07Ident
 		for k := 0; k < n; k++ {
-			id := &c07Ident{name: fmt.Sprintf("w%dk%d", w, k), tagged: r.Bool(), never: k == 0 && r.Chance(1, 3)}
+			id := &c07Ident{name: fmt.Sprintf("w%d_k%d", w, k), tagged: r.Bool(), never: k == 0 && r.Chance(1, 3)}
 			if id.tagged {
 				id.key = mon.IdentKey("c", map[string]string{"id": id.name})
 				id.histKey = mon.BucketKeyV("h", map[string]string{"id": id.name}, -1.7976931348623157e308, 1.7976931348623157e308)
@@ -115,7 +136,7 @@ func c07Run(c *mon.Ctx, r *mon.Rand) {
 	}
 	// two identities shared by all workers: only these make the identity history
 	// concurrent; their counters are checked for "never more than recorded"
-	shared := []*c07Ident{{name: "shared0", key: mon.IdentKey("shared0.c", nil)}, {name: "shared1", tagged: true, key: mon.IdentKey("c", map[string]string{"id": "shared1"})}}
+	shared := []*c07Ident{{name: "shared_0", key: mon.IdentKey("shared_0.c", nil)}, {name: "shared_1", tagged: true, key: mon.IdentKey("c", map[string]string{"id": "shared_1"})}}
 	var sharedSum [2]int64
 	for _, id := range shared {
 		expectedKeys[id.key] = true
@@ -142,7 +163,11 @@ func c07Run(c *mon.Ctx, r *mon.Rand) {
 					}
 					var handles []*held
 					mine := idents[w]
-					recordHist := e < histEpochs
+					// With a sanitizer that rewrites the tags the registry picks the shard from
+					// the raw spelling, so two spellings of one identity may live in two shards
+					// as two scopes (C05 promises sharing only for inputs the sanitizer leaves
+					// unchanged): the uniqueness model applies only with a single shard.
+					recordHist := e < histEpochs && (!withSan || shards == 1)
 					for i := 0; i < opsPerEpoch; i++ {
 						atomic.AddInt64(&totalOps, 1)
 						if recordHist && wr.Chance(1, 4) {
